@@ -8,12 +8,13 @@
 (*    k = "r"  Xi = Xx   (variable chain)                "f"      Xi = f(Xx)             *)
 (*    k = "g"  Xi = g(Xx, Xy)                            "l"      Xi = '.'(Xx, Xy)       *)
 (*    k = "s"  Xi = the partial string "ab" followed by the tail Xx, i.e. [a,b|Xx]       *)
+(*    k = "h"  Xi = h(Xx, a, a)     (arity 3: an argument cell followed by two more)     *)
 (* Edges are arbitrary, so cycles through structures, lists, strings and chains occur.   *)
 (* Every equation binds an unbound variable (each Xi has one equation; a chain leads to  *)
 (* at most one non-"r" node), so the equation set always succeeds and the heap denotes   *)
 (* exactly the graph; a cycle of "r" nodes is one unbound variable.                      *)
 (*                                                                                       *)
-(* All operators are defined on the PURE graph P (kinds v a b f g l only) obtained by    *)
+(* All operators are defined on the PURE graph P (kinds v a b f g l h only) obtained by    *)
 (* resolving chains and expanding string segments; Live is the set of its node ids.      *)
 (* The meaning is the one of the infinite unfolding:                                     *)
 (*   ==            bisimilarity (greatest fixpoint), variables are equal to themselves   *)
@@ -48,7 +49,7 @@ EXTENDS Naturals, Sequences, FiniteSets, TLC
 Nd(k, x, y) == [k |-> k, x |-> x, y |-> y]
 
 (* ---------------------------------------------------------------- enumeration of graphs *)
-NK(N) == 3 + 3 * N + 2 * N * N          \* number of node shapes over N nodes
+NK(N) == 3 + 4 * N + 2 * N * N          \* number of node shapes over N nodes
 
 DecodeNode(c, N) ==
   IF c = 0 THEN Nd("v", 0, 0)
@@ -57,9 +58,10 @@ DecodeNode(c, N) ==
   ELSE IF c < 3 + N THEN Nd("r", c - 2, 0)
   ELSE IF c < 3 + 2 * N THEN Nd("f", c - 2 - N, 0)
   ELSE IF c < 3 + 3 * N THEN Nd("s", c - 2 - 2 * N, 0)
-  ELSE IF c < 3 + 3 * N + N * N THEN
-         LET d == c - 3 - 3 * N IN Nd("g", (d \div N) + 1, (d % N) + 1)
-  ELSE   LET d == c - 3 - 3 * N - N * N IN Nd("l", (d \div N) + 1, (d % N) + 1)
+  ELSE IF c < 3 + 4 * N THEN Nd("h", c - 2 - 3 * N, 0)
+  ELSE IF c < 3 + 4 * N + N * N THEN
+         LET d == c - 3 - 4 * N IN Nd("g", (d \div N) + 1, (d % N) + 1)
+  ELSE   LET d == c - 3 - 4 * N - N * N IN Nd("l", (d \div N) + 1, (d % N) + 1)
 
 EncodeNode(nd, N) ==
   CASE nd.k = "v" -> 0
@@ -68,8 +70,9 @@ EncodeNode(nd, N) ==
     [] nd.k = "r" -> 2 + nd.x
     [] nd.k = "f" -> 2 + N + nd.x
     [] nd.k = "s" -> 2 + 2 * N + nd.x
-    [] nd.k = "g" -> 3 + 3 * N + (nd.x - 1) * N + (nd.y - 1)
-    [] nd.k = "l" -> 3 + 3 * N + N * N + (nd.x - 1) * N + (nd.y - 1)
+    [] nd.k = "h" -> 2 + 3 * N + nd.x
+    [] nd.k = "g" -> 3 + 4 * N + (nd.x - 1) * N + (nd.y - 1)
+    [] nd.k = "l" -> 3 + 4 * N + N * N + (nd.x - 1) * N + (nd.y - 1)
 
 RECURSIVE Pw(_, _)
 Pw(b, e) == IF e = 0 THEN 1 ELSE b * Pw(b, e - 1)
@@ -117,6 +120,7 @@ Pure(G) ==
             [] nd.k \in {"a", "b"} -> Nd(nd.k, 0, 0)
             [] nd.k = "f"          -> Nd("f", R(nd.x), 0)
             [] nd.k \in {"g", "l"} -> Nd(nd.k, R(nd.x), R(nd.y))
+            [] nd.k = "h"          -> Nd("h", R(nd.x), AtomA(N))
             [] nd.k = "s"          -> Nd("l", AtomA(N), N + m)
         ELSE IF n <= 2 * N THEN
           IF G[n - N].k = "s" THEN Nd("l", AtomB(N), R(G[n - N].x)) ELSE Nd("a", 0, 0)
@@ -125,17 +129,19 @@ Pure(G) ==
 Live(G) ==
   LET N == Len(G) S == {n \in 1..N : G[n].k = "s" /\ Rep(G, n) = n} IN
   {Rep(G, n) : n \in 1..N} \cup {N + n : n \in S} \cup (IF S = {} THEN {} ELSE {AtomA(N), AtomB(N)})
+  \cup (IF \E n \in 1..N : G[Rep(G, n)].k = "h" THEN {AtomA(N)} ELSE {})
 
 (* the name under which the driver sees a variable node: the least Xi aliased to it *)
 VarName(G, v) == SetMin({n \in 1..Len(G) : Rep(G, n) = v})
 
-Arity(P, n) == CASE P[n].k = "f" -> 1 [] P[n].k \in {"g", "l"} -> 2 [] OTHER -> 0
+Arity(P, n) == CASE P[n].k = "f" -> 1 [] P[n].k \in {"g", "l"} -> 2 [] P[n].k = "h" -> 3 [] OTHER -> 0
 Kid(P, n, c) == IF c = 1 THEN P[n].x ELSE P[n].y
-Kids(P, n) == IF Arity(P, n) = 0 THEN <<>> ELSE IF Arity(P, n) = 1 THEN <<P[n].x>> ELSE <<P[n].x, P[n].y>>
+Kids(P, n) == IF Arity(P, n) = 0 THEN <<>> ELSE IF Arity(P, n) = 1 THEN <<P[n].x>>
+              ELSE IF Arity(P, n) = 2 THEN <<P[n].x, P[n].y>> ELSE <<P[n].x, P[n].y, P[n].y>>     \* h(x, a, a)
 KidSet(P, n) == {Kid(P, n, c) : c \in 1..Arity(P, n)}
 Rank(P, n) == CASE P[n].k = "v" -> 0 [] P[n].k = "a" -> 1 [] P[n].k = "b" -> 2
-                [] P[n].k = "f" -> 3 [] P[n].k = "l" -> 4 [] P[n].k = "g" -> 5
-              \* standard order: Var < Atom (a @< b) < Compound; f/1 before arity 2; '.' @< g
+                [] P[n].k = "f" -> 3 [] P[n].k = "l" -> 4 [] P[n].k = "g" -> 5 [] P[n].k = "h" -> 6
+              \* standard order: Var < Atom (a @< b) < Compound; f/1 before arity 2; '.' @< g; arity 3 last
 
 (* ------------------------------------------------------------------------ == *)
 RECURSIVE GFix(_, _)
@@ -209,6 +215,7 @@ CmpStep(P, L, vo, C) ==
      ELSE IF Arity(P, p[1]) = 0 THEN "="
      ELSE LET c1 == C[<<Kid(P, p[1], 1), Kid(P, p[2], 1)>>] IN
           IF c1 # "=" \/ Arity(P, p[1]) = 1 THEN c1 ELSE C[<<Kid(P, p[1], 2), Kid(P, p[2], 2)>>]])
+          \* (arity 3 is h(x, a, a): its third pair of arguments is its second pair again)
 
 RECURSIVE CmpIter(_, _, _, _)
 CmpIter(P, L, vo, hist) ==
